@@ -50,6 +50,7 @@ def gen_scenario(rng):
         during.append((t, [ptr(alias, rng.choice([4500, 4500, 4500, 0, 1]))]))
     during.sort(key=lambda d: d[0])
     return dict(svc=s, allow=allow, pre=pre, during=during, loopback=rng.random() < 0.2, again=rng.choice([None, None, 'same', 'same-allow', 'unreg-rereg']),
+                rereg_conflict=rng.random() < 0.5,      # (unreg-rereg) somebody else advertises the name while it is unregistered
                 lead=max([-p[0] for p in pre] + [0]) + 20000, mcast=[rng.choice([20, 70, 120]) for _ in range(30)])
 
 
@@ -111,7 +112,13 @@ def run_scenario(sc):
                 res['outcomes'].append((sim.now, out2[0], type(out2[1]).__name__ if out2[1] else None, info2.name))
             elif sc['again'] == 'unreg-rereg' and out[0] == 'ok':
                 await (await a.zc.async_unregister_service(info))
-                await sim.sleep(1200)
+                await sim.sleep(1100)
+                if sc.get('rereg_conflict'):
+                    recs = [rec('KPointer', sc['svc']['type'], 12, 1, alias=info.name, ttl=4500)]
+                    res['arrivals'].append((sim.now, recs))
+                    sim.net.inject(a, build_response(recs), ('10.0.0.9', 5353))
+                await sim.sleep(100)
+                res['t_rereg'] = sim.now
                 rid2, task2 = nr.register(info, allow_name_change=sc['allow'])
                 out2 = await task2
                 res['outcomes'].append((sim.now, out2[0], type(out2[1]).__name__ if out2[1] else None, info.name))
@@ -240,16 +247,18 @@ def oracle(sc, res):
         if announces:
             return f"announcement at +{announces[0][0] - t0} although registration failed"
     # --- afterwards: nothing is announced or answered for any name other than the registered ones ---
-    held = set(res['names_final']) | set(res['names_after_first'])
+    held_all = set(res['names_final']) | set(res['names_after_first'])
     for (ms, dest, data) in res['wire']:
         m = parse(data)
         if m.is_query():
             continue
+        # (once the service has been unregistered and is being registered again, only what that second registration ends up with is held)
+        held = set(res['names_final']) if 't_rereg' in res and ms >= res['t_rereg'] else held_all
         for r in m.answers():
             if r.ttl > 0 and r.type == 12 and r.name == T and r.alias.lower() not in held:
                 return f"pointer to {r.alias!r} transmitted at +{ms - t0} but that name is not registered"
-            if r.ttl > 0 and r.type == 33 and r.name.lower() not in held:
-                return f"SRV for {r.name!r} transmitted at +{ms - t0} but that name is not registered"
+            if r.ttl > 0 and r.type in (33, 16, 47) and r.name.lower().endswith('.' + T.lower()) and r.name.lower() not in held:
+                return f"record of type {r.type} for {r.name!r} transmitted at +{ms - t0} but that name is not registered"
     if len(set(res['names_final'])) != len(res['names_final']):
         return "the registry holds the same name twice"
     for o in res['outcomes'][1:]:
@@ -325,9 +334,12 @@ def check_scenarios(ctx, scenarios, runner, oracle_fn, tag, what):
         ctx.violation({'kind': 'oracle', 'why': why, 'scenario': jsonable(sc)})
     ctx._node_cases = coq_cases
     ctx._node_fails = fails
+    ctx._node_runner, ctx._node_oracle = runner, oracle_fn
 
 
-def replay_model(ctx, ok, what):
+def replay_model(ctx, ok, what, vary=None, budget=500):
+    """vary(scenario, rng) -> a variant of a scenario on which model and implementation disagree: when no failing input is known yet, up to
+    `budget` variants are run through the implementation and judged by the oracle alone (the search for a failing input)"""
     coq_cases = ctx._node_cases
     if not ok:
         if not ctx.violations:
@@ -342,6 +354,21 @@ def replay_model(ctx, ok, what):
         ctx.violation({'kind': 'correspondence', 'what': what + ': the logged label sequence could not be replayed', 'error': str(e)[-1500:]}, no_input=True)
         return
     ctx.cov['traces_validated_against_impl'] = len(coq_cases) - len(mism)
+    if mism and vary is not None and not ctx._node_fails:
+        found = tried = 0
+        seeds = [coq_cases[idx][2] for idx, _ in mism[:10]]
+        while tried < budget and found < 2:
+            sc = vary(seeds[tried % len(seeds)], ctx.rng)
+            tried += 1
+            try:
+                why = ctx._node_oracle(sc, ctx._node_runner(sc))
+            except Exception as e:  # noqa: BLE001  (a variant the harness cannot run is no verdict)
+                continue
+            if why:
+                found += 1
+                ctx.violation({'kind': 'oracle', 'found_by': 'search among variants of a scenario on which model and implementation disagree',
+                               'why': why, 'scenario': jsonable(sc)})
+        ctx.cov['failing_input_search'] = f"{tried} variants, {found} failing"
     for idx, model_out in mism[:3]:
         from lib import valparse
         try:
